@@ -1445,3 +1445,132 @@ func vh_C10_maps() {
 	}
 	vReachIdx("maps-case", k, 6)
 }
+
+// vh_C10_nil: a field the script sets to nil after the record was converted:
+// the next conversion writes the record's current entries into the same Go
+// struct, so the field is empty there too (zero value), whatever its kind.
+func vh_C10_nil() {
+	vFormatOpaque(true)
+	env := vC10Env(0)
+	fields := []string{"s", "i", "b", "f", "v", "p", "any", "ints", "raw", "bases", "m"}
+	k := vChoice("field", len(fields))
+	iv := &SexpInt{Val: vInt64("iv")}
+	sv := vC10Str("sv", 2)
+	forms := vT(env, `(def x (vrec s:9002 i:9001 b:true f:2.5 v:(vleaf name:"v" num:9001) p:(vleaf name:"p" num:9001) any:(vleaf name:"y" num:9001) ints:[9001 2] raw:(raw "ab") bases:9002 m:(hash a:"x") n:7))`, iv, sv)
+	if _, ok := vC10Run(env, forms); !ok {
+		vAssert(false, "record-builds")
+		return
+	}
+	if _, err, p := vEvalString(env, `(togo x)`); p || err != nil {
+		vAssert(false, "first-conversion-succeeds")
+		return
+	}
+	if _, err, p := vEvalString(env, `(hset x `+fields[k]+`: nil)`); p || err != nil {
+		vAssert(false, "record-can-be-changed")
+		return
+	}
+	_, err, p := vEvalString(env, `(togo x)`)
+	vAssert(!p && err == nil, "record-with-a-nil-entry-converts-again")
+	if p || err != nil {
+		return
+	}
+	g, ok := vC10Hash(env, "x").GoShadowStruct.(*VRec)
+	if !ok || g == nil {
+		vAssert(false, "record-has-its-go-struct-attached")
+		return
+	}
+	var empty bool
+	switch fields[k] {
+	case "s":
+		empty = g.S == ""
+	case "i":
+		empty = g.I == 0
+	case "b":
+		empty = !g.B
+	case "f":
+		empty = g.F == 0
+	case "v":
+		empty = g.V == (VLeaf{})
+	case "p":
+		empty = g.P == nil
+	case "any":
+		empty = g.Any == nil
+	case "ints":
+		empty = len(g.Ints) == 0
+	case "raw":
+		empty = len(g.Raw) == 0
+	case "bases":
+		empty = g.BaseS == ""
+	case "m":
+		empty = len(g.M) == 0
+	}
+	vAssert(empty, "field-set-to-nil-is-empty-in-the-go-struct:"+fields[k])
+	vAssert(g.N == 7, "other-fields-keep-their-values")
+	vReach("nil")
+}
+
+// two struct types registered, one after the other, under one record name
+type VRegA struct {
+	Height int64 `json:"height"`
+	Width  int64 `json:"width"`
+}
+type VRegB struct {
+	Width  int64  `json:"width"`
+	Height int64  `json:"height"`
+	Label  string `json:"label"`
+}
+
+func (r *VRegA) Area() int64  { return r.Height * 1000 }
+func (r *VRegB) Area() int64  { return r.Height }
+func (r *VRegB) Self() *VRegB { return r }
+
+// vh_C10_reregister: an embedding program registers a record name again for
+// a struct of another layout: records made afterwards convert to the struct
+// registered now - its fields, its methods - in both directions.
+func vh_C10_reregister() {
+	vFormatOpaque(true)
+	env := vC10Env(0)
+	reg := func(second bool) {
+		GoStructRegistry.RegisterUserdef(&RegisteredType{GenDefMap: true, Factory: func(env *Zlisp, h *SexpHash) (interface{}, error) {
+			if second {
+				return &VRegB{}, nil
+			}
+			return &VRegA{}, nil
+		}}, true, "vreg")
+	}
+	hv, wv := &SexpInt{Val: vInt64("h")}, &SexpInt{Val: vInt64("w")}
+	reg(false)
+	env.ImportBaseTypes()
+	used := vChoice("used-before", 3)
+	switch used {
+	case 1:
+		if _, ok := vC10Run(env, vT(env, `(def old (vreg height:1 width:2)) (togo old)`)); !ok {
+			vAssert(false, "first-registration-usable")
+			return
+		}
+	case 2:
+		if _, ok := vC10Run(env, vT(env, `(def old (vreg height:1 width:2)) (_method old Area:)`)); !ok {
+			vAssert(false, "first-registration-usable")
+			return
+		}
+	}
+	reg(true)
+	env.ImportBaseTypes()
+	if _, ok := vC10Run(env, vT(env, `(def x (vreg height:9001 width:9002 label:"l"))`, hv, wv)); !ok {
+		vAssert(false, "record-of-the-re-registered-name-builds")
+		return
+	}
+	_, err, p := vEvalString(env, `(togo x)`)
+	vAssert(!p && err == nil, "record-converts-to-the-struct-registered-now")
+	if p || err != nil {
+		return
+	}
+	g, ok := vC10Hash(env, "x").GoShadowStruct.(*VRegB)
+	vAssert(ok && g != nil && g.Height == hv.Val && g.Width == wv.Val && g.Label == "l", "fields-of-the-current-struct-filled-exactly")
+	back, okb := vC10Back(env, `(_method x Area:)`)
+	bi, isInt := back.(*SexpInt)
+	vAssert(okb && isInt && bi.Val == hv.Val, "methods-of-the-current-struct-are-called")
+	rec, okr := vC10Back(env, `(_method x Self:)`)
+	vAssert(okr && vC10Same(env, vC10Hash(env, "x"), rec), "current-struct-comes-back-as-the-same-record")
+	vReachIdx("reregister", used, 3)
+}
